@@ -139,3 +139,86 @@ def _loop_receives(ctx):
 
 def obligations(ctx, cfg):
     return [WaitFor(ctx, 'topic'), WaitFor(ctx, 'subscription'), Acyclic(), _loop_receives(ctx)]
+
+
+class TopicActorLoop(Obligation):
+    """TopicActor::start's loop (`while let Some(request) = receiver.recv().await { actor.receive(request).await }`) driven with
+    one request of each kind in the mailbox while handles to the topic still exist: it handles the request, answers, and parks again."""
+    tier = 'T3'
+
+    def __init__(self, ctx, variant, id_prefix='C07.c-topic-loop'):
+        self.variant = variant
+        self.id = '%s-%s' % (id_prefix, variant)
+        self.desc = ('the topic actor loop with one %s request in its mailbox and handles to the topic still alive: the request is taken and answered, '
+                     'and the loop waits for the next request (it never stops serving while it can be reached)' % variant)
+        self.bounds = {'attached_subscriptions': 2, 'requests_in_mailbox': 1}
+        self.unroll = 6
+        install_tokens(ctx)
+
+    def body(self, ip, p):
+        ctx = ip.ctx
+        from props.C11 import sym_topic_actor
+        from props.C08 import sym_topic_message
+        from props.C16 import default_reply
+        from models_async import ReceiverM, poll_future, OneshotTx
+        ctx.on_enqueue = default_reply
+        cell, ents, dele, mstate, own, oname, other_u, reg = sym_topic_actor(ctx, p, 2)
+        p.counter += 1
+        tx = OneshotTx(p.counter)
+        ev = ctx.src.enum_variants('TopicRequest')
+        idx = [i for i, (n, _) in enumerate(ev) if n == self.variant][0]
+        if self.variant == 'AttachSubscription':
+            payload = (ArcTok(p.fresh('new_sub_tok'), 'Subscription'), tx)
+        elif self.variant == 'RemoveSubscription':
+            payload = (sym_name(ctx, p, 'SubscriptionName', 'rm'), tx)
+        elif self.variant == 'PublishMessages':
+            msg, _, _ = sym_topic_message(ctx, p, 0)
+            payload = (Seq([msg], 1), tx)
+        else:
+            payload = (tx,)
+        nfields = len(ev[idx][1]) if isinstance(ev[idx][1], (list, tuple)) else None
+        req = Enum('TopicRequest', idx, {idx: payload})
+        rx_cell = Cell(ReceiverM([req]), 'mailbox')
+        body_fn = None
+        for name, f in ctx.dump.functions.items():
+            if name.endswith('>::start::{closure#0}') and 'topic_actor' in name:
+                body_fn = f
+        if body_fn is None:
+            raise Unsupported('topic actor loop body not found')
+        body_fn.parse()
+        byname = {'receiver': rx_cell.v, 'actor': cell.v}
+        nup = max(body_fn.upvar_names) + 1 if body_fn.upvar_names else 0
+        upvars = []
+        for i in range(nup):
+            nm = body_fn.upvar_names.get(i)
+            if nm not in byname:
+                raise Unsupported('topic actor loop captures %r' % (nm,))
+            upvars.append(byname[nm])
+        coro = Enum('coroutine:' + body_fn.name, 0, {}, upvars)
+        ccell = Cell(coro, 'topic-actor-loop')
+        r = None
+        for _ in range(4):
+            r = run_to_end(poll_future(ip, Loc(ccell)))
+            if r.discr == 0:
+                break
+            if not any(e[0] == 'may-pend' for e in p.log[-3:]):
+                break
+        # the mailbox lives inside the coroutine now (moved in): find it
+        from framework import find_values
+        rxs = find_values(ccell.v, ReceiverM)
+        left = len(rxs[0].items) if rxs else None
+        return {'parked': r.discr == 1, 'left': left, 'log': list(p.log), 'tx': tx}
+
+    def post(self, ip, p, res):
+        sent = getattr(p, 'sent', {})
+        return [Claim('the loop waits for the next request (it neither ends nor panics) while the topic can still be reached', res['parked']),
+                Claim('the request was taken from the mailbox', res['left'] == 0),
+                Claim('the request was answered', res['tx'].cid in sent),
+                Cover('request handled')]
+
+
+_obligations_c07 = obligations
+
+
+def obligations(ctx, cfg):
+    return _obligations_c07(ctx, cfg) + [TopicActorLoop(ctx, v) for v in ('Delete', 'PublishMessages', 'AttachSubscription', 'RemoveSubscription')]
